@@ -523,10 +523,25 @@ func c02Dispatcher(c *Ctx, r *Report, fn *ssa.Function, tcp, control bool) map[s
 		pos    string
 	}
 	var calls []callRec
+	// calls made by the dispatcher itself or by an unexported helper it delegates to (a shared
+	// body taking a flag), but not calls made inside the per-function parsers
+	perFn := map[*ssa.Function]bool{}
+	for _, pi := range packetParsers(c, pkgRelOf(c, fn), false) {
+		perFn[pi.fn] = true
+	}
+	for _, pi := range packetParsers(c, pkgRelOf(c, fn), true) {
+		perFn[pi.fn] = true
+	}
 	an.onCall = func(f *Frame, ci ssa.CallInstruction, callee *ssa.Function, args []AV) {
-		if f.depth == 0 {
-			calls = append(calls, callRec{callee, f.cur, c.pos(ci.Pos())})
+		if f.depth > 2 {
+			return
 		}
+		for x := f; x != nil; x = x.parent {
+			if x.depth > 0 && (perFn[x.fn] || (x.fn.Object() != nil && x.fn.Object().Exported())) {
+				return
+			}
+		}
+		calls = append(calls, callRec{callee, f.cur, c.pos(ci.Pos())})
 	}
 	fr := an.newFrame(fn, nil, nil)
 	fr.run(dnfTrue())
@@ -543,8 +558,9 @@ func c02Dispatcher(c *Ctx, r *Report, fn *ssa.Function, tcp, control bool) map[s
 		fcOff = 7
 	}
 	fcb := fr.frameBytes(data, affConst(fcOff), 1, true)
-	for _, rs := range fr.returns {
-		vn := fr.nilOrNilPtr(rs.vals[0])
+	for _, site := range expandedReturns(fr, 0) {
+		rs := site.rs
+		vn := site.fr.nilOrNilPtr(rs.vals[0])
 		if vn.kind == fConst && vn.b {
 			continue
 		}
